@@ -13,6 +13,8 @@ use super::code::*;
 //@include prelude/base_spec.rs
 //@include prelude/wilson_lemmas.rs
 //@include prelude/proportion_spec.rs
+//@include prelude/lemmas_c10.rs
+//@include prelude/lemmas_c10_prop.rs
 } // mod spec
 
 pub mod code {
